@@ -21,7 +21,7 @@ import sympy as sp
 
 from .common import *  # noqa
 from .readerlib import ReaderRun, MOD, eq
-from .c01 import root_alloc, match_wrap
+from .c01 import root_alloc, match_wrap, _other_reads
 from ..arr import ROW, NoEntry
 from ..vg import Interp, strip_alloc
 
@@ -259,7 +259,7 @@ def check_text_reader(run, pkg, fname, ndim, style, wtoks, light=False):
         return e, T.atoms
     nh = len(rr.header_ids)
     run.ob("R-PROTO", fq, f"{cfg}:header-lines", nh == 9, "nine header lines are consumed before the atom block - as many as the writer emits", f"{nh} header lines read",
-           witness=None if nh == 9 else f"{cfg}: writer emits 9 header lines, reader consumes {nh}", loc=loc, sound=True)   # count of distinct readline() results ahead of the atom loop on this configuration's path
+           witness=None if nh == 9 else f"{cfg}: writer emits 9 header lines, reader consumes {nh}", loc=loc, sound=not _other_reads(rr))   # count of distinct readline() results ahead of the atom loop on this configuration's path (no other way of consuming lines present)
     if len(rr.atom_ids) != 1:
         run.ob("R-PROTO", fq, f"{cfg}:atom-branch", None, f"style '{style}' has an atom-reading branch", f"{len(rr.atom_ids)} atom-line reads",
                witness=f"{cfg}: atom block left unread" if not rr.atom_ids else None, loc=loc)
